@@ -77,6 +77,8 @@ Section Rk23.
       let x := s_x s in let y := s_y s in let h := s_h s in
       if N.leb (p_max_steps P) (nstep (s_stats s)) then
         inr (mkR NeedLargerNMax h (s_stats s) x y (s_log s) (s_cb s))
+      else if (L L0_1 * abs O h) <=? (abs O x * L LEPS) then
+        inr (mkR StepSizeTooSmall h (s_stats s) x y (s_log s) (s_cb s))
       else
         let h := if ((x + h - xend) * posneg) >? zero O then xend - x else h in
         let a := kern x y (s_k1 s) h in
@@ -104,7 +106,8 @@ Section Rk23.
           end
         else
           let stats := add_rej stats in
-          let h := h * fmax O (fmin O (p_safety P * pow O err (L LM1_3)) (one O)) (p_scale_min P) in
+          let factor := p_safety P * pow O err (L LM1_3) in
+          let h := h * (if is_nan O factor then p_scale_min P else fmax O (fmin O factor (one O)) (p_scale_min P)) in
           inl (mkS x y (s_k1 s) h stats log (s_cb s)).
 
     Fixpoint loop (fuel : nat) (s : state H) : option (result H) :=
@@ -130,7 +133,7 @@ Section Rk23.
       let '(h, stats, log) :=
         match p_first_step P with
         | Some h0 => (abs O h0 * posneg, stats, log)
-        | None => let '(h, call) := hinit O f x0 y0 posneg k1 3 hmax atol rtol in
+        | None => let '(h, call) := hinit O f x0 y0 posneg k1 3 (fmin O hmax (abs O (xend - x0))) atol rtol in
                   (h, add_fev stats 1, call :: log)
         end in
       let '(cbs, fl, y) := cb cb0 x0 x0 y0 None in
